@@ -125,6 +125,15 @@ func (g *p2pRig) afterDeliver(c *nodeConn) {
 	if c.misbehaved != "" && !c.misDelivered && c.misEnd > 0 && c.nodeEnd.Written()-c.nodeEnd.PendingOut() >= c.misEnd {
 		c.misDelivered = true
 		c.ghAtMis = len(c.getHdrs)
+		// a contradiction that arrives after the (single) checkpoint's own header has been stored meanwhile - the
+		// reply was built before, another peer's matching header overtook it - meets a service that has left
+		// checkpoint mode: recorded separately
+		if c.misbehaved == "contra" && len(g.ckpts) == 1 {
+			if row, have := g.w.Snapshot()[g.ckpts[0].Hash.String()]; have && row.State == LLongest {
+				c.misbehaved = "contra|checkpoint-already-matched"
+				g.r.Probe("contradiction-after-the-checkpoint-was-matched")
+			}
+		}
 		if c.misbehaved == "forbidden" {
 			g.banUntil[host] = now.Add(g.w.Cfg.P2P.BanDuration)
 			g.r.Logf("model: host %s banned until +%v", host, g.w.Cfg.P2P.BanDuration)
@@ -174,6 +183,10 @@ func (g *p2pRig) admissionVerdicts() {
 				r.Fail("C18", "admission", "refused-but-model-admits", "%s from host %s was closed by the service right after its version message; model: admitted (live from host %d, bans %v)", c, host, g.liveFrom(host), g.banUntil)
 			case c.expect != "admit" && !refused && !c.closed:
 				prop := "C18"
+				if c.banProbe && c.expect == "refuse-banned" && g.focus == "C07" {
+					// "the peer that sent it is disconnected (and banned by the default engine)"
+					r.Fail("C07", "ban-not-applied", "offender-returns", "%s: host %s sent a forbidden header a moment ago and is admitted again (live from host %d)", c, host, g.liveFrom(host))
+				}
 				r.Fail(prop, "admission", "admitted-but-model-"+c.expect, "%s from host %s was admitted; model says %s (live from host %d)", c, host, c.expect, g.liveFrom(host))
 			}
 			if c.expect == "admit" && !refused {
